@@ -184,6 +184,7 @@ type c02Monitor struct {
 	evals     int64
 	twin      int
 	lastSeq   uint32
+	firstSeq  uint32
 	sumEvents sdk.Int
 }
 
@@ -192,6 +193,12 @@ func (m *c02Monitor) Init(r *kernel.Run) {
 	m.prev = sdk.ZeroInt()
 	m.sumEvents = sdk.ZeroInt()
 	m.lastSeq = r.Chain.App.CfeminterKeeper.GetMinterState(r.Chain.Ctx()).SequenceId
+	m.firstSeq = m.lastSeq
+	for _, mt := range r.Chain.App.CfeminterKeeper.GetParams(r.Chain.Ctx()).Minters {
+		if mt.SequenceId < m.firstSeq {
+			m.firstSeq = mt.SequenceId
+		}
+	}
 }
 
 func (m *c02Monitor) AfterBegin(r *kernel.Run, resp abci.ResponseBeginBlock) {
@@ -241,7 +248,7 @@ func (m *c02Monitor) AfterBegin(r *kernel.Run, resp abci.ResponseBeginBlock) {
 		// finished linear periods minted exactly their amount
 		for seq := m.lastSeq; seq < st.SequenceId; seq++ {
 			h, found := c.App.CfeminterKeeper.GetMinterStateHistory(c.Ctx(), seq)
-			idx := int(seq) - 1
+			idx := int(seq) - int(m.firstSeq)
 			if !found {
 				r.Violate("C02", "history", "missing-history", "twin %d: finished period %d has no history entry", m.twin, seq)
 				continue
@@ -254,7 +261,7 @@ func (m *c02Monitor) AfterBegin(r *kernel.Run, resp abci.ResponseBeginBlock) {
 			}
 		}
 		// carried remainder = frac(E at the hand-over instant)
-		idx := int(st.SequenceId) - 1
+		idx := int(st.SequenceId) - int(m.firstSeq)
 		if idx >= 1 && idx <= len(m.model.Periods)-1 {
 			b := *m.model.Periods[idx-1].End
 			eb, sb := m.model.Cumulative(b)
